@@ -1344,7 +1344,7 @@ func (d *Data) ServeHTTP(uuid dvid.UUID, ctx *datastore.VersionedCtx, w http.Res
 			return
 		}
 		w.Header().Set("Content-Type", "application/json")
-		fmt.Fprintf(w, string(jsonBytes))
+		fmt.Fprint(w, string(jsonBytes))
 
 	case "sync":
 		if action != "post" {
@@ -1375,7 +1375,7 @@ func (d *Data) ServeHTTP(uuid dvid.UUID, ctx *datastore.VersionedCtx, w http.Res
 		}
 		w.Header().Set("Content-type", "application/json")
 		jsonStr := fmt.Sprintf(`{"Label": %d}`, label)
-		fmt.Fprintf(w, jsonStr)
+		fmt.Fprint(w, jsonStr)
 		timedLog.Infof("HTTP %s: label at %s (%s)", r.Method, coord, r.URL)
 
 	case "labels":
